@@ -29,6 +29,16 @@ class archive(dict):
         if name is not None:
             adict.__state__['id'] = name
         return adict
+    def popkeys(self, keys, *value):
+        """    D.popkeys(k[,d]) -> v, remove specified keys and return corresponding values.
+    If key in keys is not found, d is returned if given, otherwise KeyError is raised."""
+        if not hasattr(keys, '__iter__'):
+            return self.pop(keys, *value)
+        if len(value):
+            return [self.pop(k, *value) for k in keys]
+        memo = self.fromkeys(self.keys())
+        [memo.pop(k) for k in keys]
+        return [self.pop(k) for k in keys]
     # interface
     def load(self, *args):
         """does nothing. required to use an archive as a cache"""
